@@ -64,7 +64,12 @@ def gen_leaf(r, kind=None, big=False):
     if k in ("a4", "ip4"):
         return (k, r.bytes(4) if r.chance(3, 4) else r.choice([b"\0\0\0\0", b"\xff\xff\xff\xff", b"\x7f\0\0\1"]))
     if k in ("a6", "ip6"):
-        return (k, r.bytes(16) if r.chance(3, 4) else r.choice([b"\0" * 16, b"\xff" * 16, b"\0" * 15 + b"\1"]))
+        # besides random ones: unspecified, all ones, loopback, IPv4-mapped (::ffff:a.b.c.d), IPv4-compatible (::a.b.c.d),
+        # NAT64 (64:ff9b::/96), 6to4 (2002::/16), link-local, multicast - every form a library might want to "normalise"
+        special = [b"\0" * 16, b"\xff" * 16, b"\0" * 15 + b"\1", b"\0" * 10 + b"\xff\xff" + bytes([192, 0, 2, 33]), b"\0" * 10 + b"\xff\xff" + b"\0\0\0\0",
+                   b"\0" * 12 + bytes([10, 1, 2, 3]), bytes.fromhex("0064ff9b") + b"\0" * 8 + bytes([198, 51, 100, 7]), bytes.fromhex("2002c0000221") + b"\0" * 10,
+                   bytes.fromhex("fe80") + b"\0" * 6 + r.bytes(8), bytes.fromhex("ff02") + b"\0" * 13 + b"\1"]
+        return (k, r.bytes(16) if r.chance(1, 2) else r.choice(special))
     if k == "ae":
         n = r.choice([1, 2, 3, 12, 14, 15]) if r.chance(1, 2) else r.range(1, 15)
         return (k, bytes(r.range(0x30, 0x39) for _ in range(n)))
